@@ -93,7 +93,7 @@ let forest_of_queue (q : qtoken list) : tree list =
        | [] -> ())) q;
   List.rev !cur
 
-let cfg = { memchr = true; fixed3 = true; fixedlim = false }
+let cfg = { memchr = true; fixed3 = true; fixedlim = true }
 let limit = 4000
 
 let names_of_g (g : grammar) = Array.of_list (List.map (fun r -> string_of_bytes r.rname) g)
@@ -122,7 +122,8 @@ let () =
          let input = unhex inp in
          (* the specification on the original grammar *)
          let spec =
-           (try match spec_parse g extras (fun _ -> None) input (nat_of_int 3000) (bytes_of rule) with
+           if impl = "Limit" then "Fuel" else
+           (try match spec_parse g extras (fun _ -> None) input (nat_of_int 1500) (bytes_of rule) with
               | SMatch (_, _, f) -> "Ok " ^ forest_string (names_of_g g) f
               | SFail -> "Err"
               | SFuel -> "Fuel"
